@@ -296,25 +296,77 @@ def r12_7(ctx) -> None:
     ab = P.cls("rfc7517.pem:CryptographyBinding").methods.get("as_bytes")
     if ab is None:
         raise AnalysisError("CryptographyBinding.as_bytes vanished")
-    cfg = cfg_of(ab)
-    okb = True
-    seen = 0
-    for t in cfg.nodes:
-        if t.kind == "test" and isinstance(t.ast, ast.Compare) and norm(t.ast.left) == "private" and isinstance(t.ast.ops[0], ast.Is):
-            cv = const_value(t.ast.comparators[0])
-            for s0 in succ_by_label(cfg, t, "true"):
-                for r in cfg.returns():
-                    if r is s0 or (r in cfg.reachable(s0) and cfg.must_pass(cfg.entry, r, [t])):
-                        v = r.ast.value
-                        if isinstance(v, ast.Call) and v.args and r is s0:
-                            seen += 1
-                            arg = norm(v.args[0])
-                            if cv is False and arg != "key.public_key":
-                                okb = False
-                            if cv is True and arg != "key.private_key":
-                                okb = False
-    ctx.check(okb and seen >= 2, "R12.7", ab, ab.node, "CryptographyBinding.as_bytes", "as_bytes does not map private=False to key.public_key and private=True to key.private_key",
-              "False -> public_key, True -> private_key", construct="as_bytes branches")
+    _as_bytes_paths(ctx, ab, d)
+
+
+def _private_atom(pname: str):
+    """atoms over the tri-state `private` argument: T = `private is True`, F = `private is False` (bool | None: truthiness is T)"""
+    def atom(e: ast.AST):
+        if isinstance(e, ast.UnaryOp) and isinstance(e.op, ast.Not):
+            r = atom(e.operand)
+            return (r[0], not r[1]) if r else None
+        if isinstance(e, ast.Name) and e.id == pname:
+            return ("T", True)
+        if isinstance(e, ast.Compare) and len(e.ops) == 1 and isinstance(e.left, ast.Name) and e.left.id == pname and isinstance(e.comparators[0], ast.Constant):
+            cv = e.comparators[0].value
+            pos = isinstance(e.ops[0], (ast.Is, ast.Eq))
+            if not pos and not isinstance(e.ops[0], (ast.IsNot, ast.NotEq)):
+                return None
+            if cv is True:
+                return ("T", pos)
+            if cv is False:
+                return ("F", pos)
+            if cv is None:
+                return ("N", pos)
+        return None
+    return atom
+
+
+def _as_bytes_paths(ctx, ab, d) -> None:
+    """R12.7 (second half), decided per path: whatever the shape of as_bytes, on every path the native key and the `private` flag handed
+    to dump_pem_key agree with what the caller asked for:  private is True -> (key.private_key, truthy flag);  private is False ->
+    (key.public_key, falsy flag);  otherwise (None) -> (key.raw_value, key.is_private)."""
+    from ..decide import call_views
+    eng = ctx.eng
+    kp = ab.pos_params[0] if ab.pos_params and ab.pos_params[0] not in ("self", "cls") else (ab.pos_params[1] if len(ab.pos_params) > 1 else "key")
+    if "private" not in ab.params:
+        raise AnalysisError("as_bytes lost its `private` parameter")
+    is_dump = lambda c: any(x is d for s in eng.cg.calls_in(ab) if s.node is c for x in s.callees)
+    views, without = call_views(ab, _private_atom("private"), is_dump)
+    ctx.check(without == 0, "R12.7", ab, ab.node, "as_bytes :: every path serialises through dump_pem_key", f"{without} path(s) of as_bytes return without calling dump_pem_key",
+              "all paths call dump_pem_key", construct="as_bytes branches")
+    dpos = {p: i for i, p in enumerate(d.pos_params)}
+    n = 0
+    for v in views:
+        def arg(name):
+            i = dpos.get(name)
+            if i is not None and i < len(v.args):
+                return v.args[i]
+            return v.keywords.get(name)
+        k, fl = arg(d.pos_params[0]), arg("private")
+        kt = norm(k) if k is not None else "<omitted>"
+        ft = norm(fl) if fl is not None else "<omitted>"
+        lits = v.literals
+        # the caller's request on this path: True / False / None (a path may cover several)
+        cases = []
+        for name, t_, f_, n_ in (("True", True, False, False), ("False", False, True, False), ("None", False, False, True)):
+            if lits.get("T", t_) == t_ and lits.get("F", f_) == f_ and lits.get("N", n_) == n_:
+                cases.append(name)
+        if v.unknown:
+            ctx.fail("R12.7", ab, v.call, f"as_bytes reaches dump_pem_key under a test this rule cannot decide ({v.unknown[0][:50]})", construct="as_bytes branches")
+            continue
+        for c in cases:
+            n += 1
+            if c == "True":
+                ok = kt == f"{kp}.private_key" and ft in ("private", "True")
+            elif c == "False":
+                ok = kt == f"{kp}.public_key" and ft in ("private", "False")
+            else:
+                ok = kt == f"{kp}.raw_value" and ft == f"{kp}.is_private"
+            ctx.check(ok, "R12.7", ab, v.call, f"CryptographyBinding.as_bytes :: private is {c}",
+                      f"as_bytes does not map private=False to key.public_key and private=True to key.private_key: with private={c} it serialises `{kt[:40]}` with flag `{ft[:30]}`",
+                      "True -> (private_key, True); False -> (public_key, False); None -> (raw_value, key.is_private)", construct="as_bytes branches")
+    ctx.count("R12.7", n, 3, "as_bytes (path, request) pairs decided")
 
 
 def r12_8(ctx) -> None:
@@ -348,10 +400,11 @@ def r12_9(ctx) -> None:
                 if "private" not in c.params or c is fn:
                     continue
                 n += 1
+                if fn.short == "rfc7517.pem:CryptographyBinding.as_bytes" and c.short == "rfc7517.pem:dump_pem_key":
+                    ctx.ok("R12.9", f"{fn.short} -> {c.short}", "decided per path by R12.7 (key and flag agree with the request on every path)")
+                    continue
                 a = eng.cg.arg_for_param(s, c, "private")
                 ok = a is not None and norm(a) == "private"
-                if not ok and a is not None and norm(a).endswith(".is_private") and s.node.args and norm(s.node.args[0]).endswith(".raw_value"):
-                    ok = True  # the "export what the key holds" branch, decided by R12.7
                 ctx.check(ok, "R12.9", fn, s.node, f"{fn.short} -> {c.short}", f"{fn.short} does not pass its `private` argument on to {c.short} "
                           f"({'argument omitted: the callee default applies' if a is None else 'passes ' + norm(a)}): a request for the public form can yield the private key",
                           "private=private", construct=f"private flag forwarding {fn.short} -> {c.short}")
